@@ -2,7 +2,9 @@ package main
 
 import (
 	"fmt"
+	"go/token"
 	"go/types"
+	"sort"
 	"strings"
 
 	"golang.org/x/tools/go/ssa"
@@ -25,6 +27,7 @@ func init() {
 			{ID: "C05.3", Doc: "capacity, duplicate, root-ID, zero-ID guards dominate insertion", Floor: 8, Run: c05r3},
 			{ID: "C05.4", Doc: "table and liveness state guarded by Server.mu", Floor: 30, Run: c05r4},
 			{ID: "C05.5", Doc: "reported numbers derived from the entries", Floor: 6, Run: c05r5},
+			{ID: "C05.6", Doc: "one notion of address identity: the duplicate test compares the same projection of the address that keys the address index", Floor: 3, Run: c05r6},
 		},
 	})
 }
@@ -676,5 +679,85 @@ func (w *World) checkRootGuards(rr *RuleRun) {
 	}
 	if n == 0 {
 		rr.Oblige(shortFuncName(a.bucketIndex), "bucketIndex has callers", w.P.Pos(a.bucketIndex.Pos()), false, "none found")
+	}
+}
+
+// c05r6: "no two entries share both ID and address" and "the address index mirrors the buckets"
+// hold together only if 'same address' means the same thing in both places. The address index is
+// keyed by a projection of Addr (today: String()); every equality on addresses in the duplicate
+// test (bucket.GetNode and the helpers folded into it) must compare that very projection on both
+// sides.
+func c05r6(w *World, rr *RuleRun) {
+	a := w.tableAnchors()
+	// projections used as keys of table.addrs
+	proj := map[string]bool{}
+	nKey := 0
+	eachInstr(w.P.LibFuncs, func(fn *ssa.Function, ins ssa.Instruction) {
+		var m, k ssa.Value
+		switch x := ins.(type) {
+		case *ssa.Lookup:
+			m, k = x.X, x.Index
+		case *ssa.MapUpdate:
+			m, k = x.Map, x.Key
+		default:
+			if c := callInstrCommon(ins); c != nil {
+				if b, ok := c.Value.(*ssa.Builtin); ok && b.Name() == "delete" && len(c.Args) == 2 {
+					m, k = c.Args[0], c.Args[1]
+				}
+			}
+		}
+		if m == nil || fieldOfAddr(m) != a.addrs || !types.Identical(m.Type().Underlying(), a.addrs.Type().Underlying()) {
+			return
+		}
+		nKey++
+		kt := w.TS.Of(k)
+		ok := kt.Op == OpCall && len(kt.Args) == 1
+		if ok {
+			proj[kt.Name] = true
+		}
+		rr.At(w, ins, "the address index is keyed by a projection of the entry's / caller's address", ok, "key "+trunc(kt.String(), 100))
+	})
+	var projs []string
+	for p := range proj {
+		projs = append(projs, p)
+	}
+	sort.Strings(projs)
+	rr.Oblige("table.addrs", "the address index uses one key projection", "-", len(projs) == 1 && nKey > 0, strings.Join(projs, ", "))
+	if len(projs) != 1 {
+		return
+	}
+	// address equalities in the duplicate test
+	addrF := w.P.Field("", "nodeKey", "Addr")
+	isAddrTyped := func(t *Term) bool {
+		found := false
+		t.Walk(func(x *Term) bool {
+			if isFieldTerm(x, addrF) {
+				found = true
+			}
+			if x.Op == OpParam {
+				if p, ok := x.Obj.(*ssa.Parameter); ok && strings.HasSuffix(p.Type().String(), "dht/v2.Addr") {
+					found = true
+				}
+			}
+			return !found
+		})
+		return found
+	}
+	nEq := 0
+	eachInstr(w.RegionOf(a.getNode), func(fn *ssa.Function, ins ssa.Instruction) {
+		bo, ok := ins.(*ssa.BinOp)
+		if !ok || (bo.Op != token.EQL && bo.Op != token.NEQ) {
+			return
+		}
+		l, r := w.TS.Of(bo.X), w.TS.Of(bo.Y)
+		if !isAddrTyped(l) && !isAddrTyped(r) {
+			return
+		}
+		nEq++
+		same := l.Op == OpCall && r.Op == OpCall && l.Name == projs[0] && r.Name == projs[0] && len(l.Args) == 1 && len(r.Args) == 1
+		rr.At(w, ins, "the duplicate test compares addresses by the projection that keys the address index", same, "compares "+trunc(l.String(), 80)+" with "+trunc(r.String(), 80)+"; index key projection "+projs[0])
+	})
+	if nEq == 0 {
+		rr.Oblige(shortFuncName(a.getNode), "the duplicate test compares addresses by the projection that keys the address index", w.P.Pos(a.getNode.Pos()), false, "no address comparison found in bucket.GetNode")
 	}
 }
